@@ -201,6 +201,11 @@ pub struct Executor<E: Effect> {
     spawning: HashSet<ProcessId>,
     selecting: HashSet<ProcessId>,
     effecting: HashSet<ProcessId>,
+    // Processes parked in a select whose initial await query has not been answered yet. Until the
+    // answers are in, the select must not look at its sources: a message arriving (or a local
+    // completion) in that window would otherwise let a lower-priority source win over an awaited
+    // process that had finished before the select began.
+    awaiting_initial: HashSet<ProcessId>,
     // Program data owned by executor
     constants: Vec<Constant>,
     functions: Vec<Function>,
@@ -604,6 +609,7 @@ impl<E: Effect> Executor<E> {
             spawning: HashSet::new(),
             selecting: HashSet::new(),
             effecting: HashSet::new(),
+            awaiting_initial: HashSet::new(),
             constants: vec![],
             functions: vec![],
             builtins: vec![],
@@ -783,12 +789,18 @@ impl<E: Effect> Executor<E> {
             }
         }
 
-        // Re-queue awaiter to retry its Select instruction
-        if self.selecting.remove(&awaiter) {
+        // Re-queue awaiter to retry its Select instruction (once its initial answers are in)
+        if !self.awaiting_initial.contains(&awaiter) && self.selecting.remove(&awaiter) {
             self.queue.push_back(awaiter);
         }
 
         Ok(())
+    }
+
+    /// The initial answers to a select's await query have arrived: from now on the select may be
+    /// woken by messages and completions again. Returns whether the process was waiting for them.
+    pub fn initial_await_answered(&mut self, id: ProcessId) -> bool {
+        self.awaiting_initial.remove(&id)
     }
 
     /// Notify a process that an effect operation completed
@@ -859,8 +871,9 @@ impl<E: Effect> Executor<E> {
                 .push_back(injected_message);
         }
 
-        // Re-queue if the process is selecting (waiting for messages)
-        if self.selecting.remove(&id) {
+        // Re-queue if the process is selecting (waiting for messages) — unless it is still waiting
+        // for the initial answers of its await query; it will see the message when they arrive.
+        if !self.awaiting_initial.contains(&id) && self.selecting.remove(&id) {
             self.queue.push_back(id);
         }
 
@@ -2246,6 +2259,7 @@ impl<E: Effect> Executor<E> {
                 self.release(old);
             }
 
+            self.awaiting_initial.insert(pid);
             self.mark_selecting(pid);
             return Ok(Some(Action::Await {
                 targets: pid_targets,
